@@ -28,6 +28,7 @@ type Replay struct {
 	Kind string    `json:"kind"` // tree | iw | ci | e2e
 	Tree *TreeCase `json:"tree,omitempty"`
 	Iw   []int64   `json:"iw,omitempty"`
+	Adv  []uint32  `json:"adv,omitempty"` // minPos maxPos count pos
 	Ci   *CiCase   `json:"ci,omitempty"`
 	E2E  *E2ECase  `json:"e2e,omitempty"`
 }
@@ -42,6 +43,8 @@ func mkCase(rp Replay) (*Case, error) {
 		return runCi(rp)
 	case "e2e":
 		return runE2E(rp)
+	case "adv":
+		return runAdv(rp)
 	}
 	return nil, fmt.Errorf("unknown case kind %q", rp.Kind)
 }
@@ -93,6 +96,13 @@ func main() {
 		}
 		for i := 0; i < c.N(120); i++ {
 			jobs = append(jobs, Replay{Kind: "iw", Iw: genIw(c.Rng.Fork())})
+		}
+		for i := 0; i < c.N(80); i++ {
+			r := c.Rng
+			pick := func() uint32 {
+				return uint32(r.PickInt(0, 0, 1, 2, 5, 249, 250, 251, 4294967295, 4294967294, r.Range(0, 20)))
+			}
+			jobs = append(jobs, Replay{Kind: "adv", Adv: []uint32{pick(), pick(), pick(), pick()}})
 		}
 		res := make([]*Case, len(jobs))
 		errs := make([]error, len(jobs))
